@@ -7082,3 +7082,72 @@ def kg2(m, run, rule='KG2.generated-knot-vectors-are-valid'):
                     bad.append(('degree %d, %d control points, clamped=%s' % (p, n, clamped), why))
     run.ob(rule, '%s :: %d (degree, count, clamped) cases' % (fg.key, cnt), not bad, 'n + p + 1 knots on [0, 1], clamped ends of multiplicity p + 1, accepted by check' if not bad else
            '%s: %s   [%d of %d]' % (bad[0][0], bad[0][1], len(bad), cnt), 'geomdl/knotvector.py:%d in %s' % (fg.node.lineno, fg.key))
+
+
+# ====================================================================================== C16: the vector / matrix helpers on symbolic operands
+def vh2(m, run, rule='VH2.vector-helpers-equal-their-definitions'):
+    """VH2: the vector and matrix helpers of linalg interpreted on symbolic operands (exact): vector_cross is the cross product (2-D operands
+    padded with z = 0), vector_dot the sum of products, vector_multiply v s, vector_sum v1 + c v2, point_translate p + v, vector_generate
+    end - start, matrix_transpose rows <-> columns, matrix_multiply the row-by-column sums (non-square shapes, matrix x matrix),
+    matrix_scalar m s, vector_mean the coordinate-wise mean; the inputs are left as they were and the results are new lists"""
+    from .skel import Sym
+    from .poly import Poly
+
+    def A(name, n):
+        return [Poly.atom('%s%d' % (name, i)) for i in range(n)]
+
+    def M(name, r, c):
+        return [[Poly.atom('%s%d_%d' % (name, i, j)) for j in range(c)] for i in range(r)]
+
+    def S(x):
+        return [S(y) for y in x] if isinstance(x, list) else Sym(x)
+
+    def same(got, want):
+        if isinstance(want, list):
+            return isinstance(got, (list, tuple)) and len(got) == len(want) and all(same(g, w) for g, w in zip(got, want))
+        s = _as_sym(got)
+        return s is not None and s.same(Sym(want))
+    a3, b3, a2, b2 = A('a', 3), A('b', 3), A('a', 2), A('b', 2)
+    s_, c_ = Poly.atom('s'), Poly.atom('c')
+    m23, m34 = M('m', 2, 3), M('n', 3, 4)
+    zero = Poly()
+    cases = [
+        ('vector_cross', [S(a3), S(b3)], {}, [a3[1] * b3[2] - a3[2] * b3[1], a3[2] * b3[0] - a3[0] * b3[2], a3[0] * b3[1] - a3[1] * b3[0]], 'a x b'),
+        ('vector_cross', [S(a2), S(b2)], {}, [zero, zero, a2[0] * b2[1] - a2[1] * b2[0]], 'a x b for planar vectors'),
+        ('vector_cross', [S(a3), S(b2)], {}, [-(a3[2] * b2[1]), a3[2] * b2[0], a3[0] * b2[1] - a3[1] * b2[0]], 'a x b, second operand planar'),
+        ('vector_dot', [S(a3), S(b3)], {}, a3[0] * b3[0] + a3[1] * b3[1] + a3[2] * b3[2], 'a . b'),
+        ('vector_multiply', [S(a3), Sym(s_)], {}, [x * s_ for x in a3], 'v s'),
+        ('vector_sum', [S(a3), S(b3), Sym(c_)], {}, [x + c_ * y for x, y in zip(a3, b3)], 'v1 + c v2'),
+        ('point_translate', [S(a3), S(b3)], {}, [x + y for x, y in zip(a3, b3)], 'p + v'),
+        ('vector_generate', [S(a3), S(b3)], {}, [y - x for x, y in zip(a3, b3)], 'end - start'),
+        ('matrix_transpose', [S(m23)], {}, [[m23[i][j] for i in range(2)] for j in range(3)], 'rows <-> columns'),
+        ('matrix_multiply', [S(m23), S(m34)], {}, [[sum((m23[i][k] * m34[k][j] for k in range(3)), Poly()) for j in range(4)] for i in range(2)], 'row-by-column sums, 2 x 3 times 3 x 4'),
+        ('matrix_multiply', [S(m23), S(b3)], {}, [sum((m23[i][k] * b3[k] for k in range(3)), Poly()) for i in range(2)], 'matrix times vector, 2 x 3 times 3'),
+        ('matrix_scalar', [S(m23), Sym(s_)], {}, [[x * s_ for x in r] for r in m23], 'm s'),
+        ('vector_mean', [S(a3), S(b3)], {}, [(x + y) * (Poly.const(1) * (1 / __import__('fractions').Fraction(2))) for x, y in zip(a3, b3)], 'coordinate-wise mean of the vectors'),
+    ]
+    for name, args, kw, want, doc in cases:
+        key_f = 'linalg.' + name
+        if key_f not in m.funcs:
+            continue
+        fi = m.func(key_f)
+        sk = SK(m, {})
+        sk.exact = True
+        why = None
+
+        def snap(x):
+            return [snap(y) for y in x] if isinstance(x, list) else id(x)
+        keep = [snap(a_) for a_ in args]
+        try:
+            out = sk.call(fi, args, dict(kw))
+            if not same(out, want):
+                why = 'returns %s, the definition (%s) gives %r' % (repr(out)[:140], doc, want)
+            elif [snap(a_) for a_ in args] != keep:
+                why = 'an operand is modified'
+            elif isinstance(out, list) and any(out is a_ for a_ in args):
+                why = 'an operand itself is returned'
+        except Violation as v:
+            why = '%s %s' % (v.msg, v.where())
+        except Unsupported as ex:
+            raise AnalysisError('%s: interpreter met an unsupported construct: %s' % (fi.key, ex))
+        run.ob(rule, '%s :: %s' % (fi.key, doc), why is None, 'equals its definition on symbolic operands' if why is None else why, 'geomdl/linalg.py:%d in %s' % (fi.node.lineno, fi.key))
